@@ -474,6 +474,71 @@ fn c11_composite_glyph() {
     std::mem::forget(table);
 }
 
+/// Step 3a of the W3C reconstruction for a composite with TWO components: the instruction
+/// length is read from the glyph stream as soon as ANY component carries WE_HAVE_INSTRUCTIONS
+/// (not just the last one), and the glyph that follows is decoded from the right stream
+/// positions.
+// @bound 2 glyphs: a composite with two components (byte xy arguments; WE_HAVE_INSTRUCTIONS symbolic on each) with 2 instruction bytes, then an empty glyph; symbolic glyph indices, arguments and bbox
+#[kani::proof]
+#[kani::unwind(10)]
+fn c11_composite_two_components() {
+    let i0: bool = kani::any();
+    let i1: bool = kani::any();
+    // header 36 | nContour 4 | composite 12 | glyph stream 1 | bitmap 4 + bbox 8 | instructions 2
+    let mut buf = [0u8; 36 + 4 + 12 + 1 + 12 + 2];
+    put16(&mut buf, 4, 2);
+    put32(&mut buf, 8, 4); // nContour stream
+    put32(&mut buf, 20, 1); // glyph stream
+    put32(&mut buf, 24, 12); // composite stream
+    put32(&mut buf, 28, 12); // bbox stream
+    put32(&mut buf, 32, 2); // instruction stream
+    put16(&mut buf, 36, 0xFFFF); // glyph 0: numberOfContours = -1
+    put16(&mut buf, 38, 0); // glyph 1: empty
+    let glyph_at = 40;
+    buf[glyph_at] = 2; // instruction length, only read when a component asks for instructions
+    let comp_at = 41;
+    put16(&mut buf, comp_at, 0x0022 | if i0 { 0x0100 } else { 0 }); // MORE_COMPONENTS | ARGS_ARE_XY_VALUES
+    put16(&mut buf, comp_at + 6, 0x0002 | if i1 { 0x0100 } else { 0 });
+    let (g0, g1): (u16, u16) = (kani::any(), kani::any());
+    put16(&mut buf, comp_at + 2, g0);
+    put16(&mut buf, comp_at + 8, g1);
+    let args: [u8; 4] = kani::any();
+    buf[comp_at + 4] = args[0];
+    buf[comp_at + 5] = args[1];
+    buf[comp_at + 10] = args[2];
+    buf[comp_at + 11] = args[3];
+    let bitmap_at = 53;
+    buf[bitmap_at] = 0x80;
+    let bb: [u8; 8] = kani::any();
+    let mut k = 0;
+    while k < 8 {
+        buf[bitmap_at + 4 + k] = bb[k];
+        k += 1;
+    }
+    let ins: [u8; 2] = kani::any();
+    buf[65] = ins[0];
+    buf[66] = ins[1];
+    let loca = LocaTable::empty();
+    let table = ReadScope::new(&buf).read_dep::<Woff2GlyfTable>((&ENTRY, &loca)).unwrap();
+    assert!(table.records().len() == 2);
+    match &table.records()[0] {
+        GlyfRecord::Parsed(Glyph::Composite(c)) => {
+            assert!(c.glyphs.len() == 2);
+            assert!(c.glyphs[0].glyph_index == g0 && c.glyphs[1].glyph_index == g1);
+            if i0 || i1 {
+                assert!(c.instructions.len() == 2 && c.instructions[0] == ins[0] && c.instructions[1] == ins[1], "instructions of a hinted composite");
+            } else {
+                assert!(c.instructions.is_empty());
+            }
+            assert!(c.bounding_box.x_min == be16(&bb, 0) as i16 && c.bounding_box.y_max == be16(&bb, 6) as i16);
+            kani::cover!(i0 && !i1, "instructions flagged on the first component only");
+            kani::cover!(!i0 && !i1, "unhinted composite");
+        }
+        _ => assert!(false),
+    }
+    std::mem::forget(table);
+}
+
 // ---------------------------------------------------------------------------
 // transformed hmtx
 // ---------------------------------------------------------------------------
